@@ -10,6 +10,12 @@ Theorem underscores_are_ignored b :
 Proof. exact (Numerals.underscores_are_ignored b). Qed.
 Print Assumptions underscores_are_ignored.
 
+(* conversely every well-formed body - digits of the base with single underscores between them - is accepted *)
+Theorem well_formed_is_accepted b l :
+  wf_body b l -> forall a st, exists v, scan b l a st = Some v.
+Proof. exact (Numerals.well_formed_is_accepted b l). Qed.
+Print Assumptions well_formed_is_accepted.
+
 Theorem underscore_never_first b r a :
   scan b (95%N :: r) a 0%nat = None.
 Proof. exact (Numerals.underscore_never_first b r a). Qed.
